@@ -505,6 +505,19 @@ func init() {
 			}
 			return true
 		})
+		// ... and, at that length, every core query asked before and after each of the later ones
+		// (a step in between -- further engines, a big rule, many candidates -- must not cost what was in memory)
+		if !c.Thorough() || n == 4 {
+			for q := 0; q < nCore; q++ {
+				for x := nCore; x < len(qs); x++ {
+					h := []int{q, x, q}
+					if n == 4 {
+						h = []int{q, x, q, x}
+					}
+					hists = append(hists, h)
+				}
+			}
+		}
 		var mu sync.Mutex
 		var evals, cases int64
 		exhaustive := true
